@@ -1322,6 +1322,13 @@ impl VectorEngine {
         self.hnsw_cache.write().remove(collection);
     }
 
+    /// Drop every cached HNSW index (all collections).
+    ///
+    /// Call this after the store's content was replaced wholesale (`ROLLBACK TO`).
+    pub fn clear_hnsw_cache(&self) {
+        self.hnsw_cache.write().clear();
+    }
+
     /// Build an HNSW index and cache it for the default collection.
     ///
     /// # Errors
